@@ -34,6 +34,7 @@ inductive SqlCond where
   | enumEq (f : String) (const : String)   -- `x.F == Const`     (enum field, declared constant by NAME)
   | enumNe (f : String) (const : String)   -- `x.F != Const`
   | localHasPrefix (v : String) (lit : String)  -- `strings.HasPrefix(v, "lit")` for a local string `v`
+  | kidKindIs (f : String) (kind : String)  -- `_, ok := x.F.(*Kind); ok`  (single node field; false when nil)
   | not (c : SqlCond)
   | and (a b : SqlCond)
   | or (a b : SqlCond)
@@ -202,6 +203,7 @@ def SqlCond.eval (T : SqlTables) (c : SqlCtx) : SqlCond → Option Bool
     | some s, some v => some (s != v)
     | _, _ => none
   | .localHasPrefix v l => (c.locals.lookup v).map (fun s => (B l).isPrefixOf s)
+  | .kidKindIs f k => (c.single f).map (fun o => match o with | some kid => kid.kind == k | none => false)
   | .not a => (a.eval T c).map (!·)
   | .and a b =>
     match a.eval T c, b.eval T c with
